@@ -9,6 +9,8 @@ import (
 	"strings"
 	"time"
 
+	"github.com/pentops/j5/internal/zzverif/gbridge"
+	"github.com/pentops/j5/internal/zzverif/gj5s"
 	"github.com/pentops/j5/internal/zzverif/gpb"
 	"github.com/pentops/j5/internal/zzverif/vk"
 	"github.com/pentops/j5/lib/j5codec"
@@ -91,6 +93,13 @@ func run(r *vk.Runner) {
 			cases = append(cases, p)
 		}
 	}
+	// the same for schemas the j5s compiler produced (single-field programs; all bridged programs in the thorough tier)
+	gj5s.Silence()
+	if r.Quick() {
+		cases = append(cases, gbridge.Cases(gj5s.SingleFieldCases())...)
+	} else {
+		cases = append(cases, gbridge.Cases(gbridge.Programs())...)
+	}
 	for _, c := range cases {
 		if r.Stopped() {
 			return
@@ -101,6 +110,9 @@ func run(r *vk.Runner) {
 		kind := "pair"
 		if c.Under != nil {
 			kind = c.Under.Kind.String()
+		}
+		if strings.HasPrefix(c.ID, "j5s/") {
+			kind = "j5s:" + kind
 		}
 		// Any payloads are opaque JSON: the exactness oracle does not apply to their inside
 		anyKind := c.Under != nil && (c.Under.Kind == gpb.KJ5Any || c.Under.Kind == gpb.KPbAny)
